@@ -693,9 +693,9 @@ Section Helpers.
       [eapply send_request_snapshot_cf; exact H|].
     destruct (m_index m <? committed (r_log r)); [eapply send_cf; [exact H|exact HtyAR]|].
     inv_bind H. destruct x as [l' res]. destruct res as [[c0 last_idx]|].
-    - apply send_cf in H; [|exact HtyAR]. cf_solve.
+    - apply (send_cf ty) in H; [|exact HtyAR]. cf_solve.
     - inv_bind H. destruct x as [hi [ht|]]; [|discriminate].
-      apply send_cf in H; [|exact HtyAR]. cf_solve.
+      apply (send_cf ty) in H; [|exact HtyAR]. cf_solve.
   Qed.
 
   Lemma handle_heartbeat_cf r m r' : handle_heartbeat r m = Ok r' -> cf ty r r'.
@@ -703,7 +703,231 @@ Section Helpers.
     intros H. unfold handle_heartbeat in H. inv_bind H.
     match type of H with (if ?c then _ else _) = _ => destruct c end.
     - apply send_request_snapshot_cf in H. cf_solve.
-    - apply send_cf in H; [|exact HtyHR]. cf_solve.
+    - apply (send_cf ty) in H; [|exact HtyHR]. cf_solve.
+  Qed.
+
+
+  (* post_conf_change: exactly when the node is a leader that is still a voter of a
+     non-empty configuration does it reach the transfer check; the check runs on a
+     state r3 that differs from r only by replication traffic *)
+  Definition pcc_check (r3 : raft) : raft :=
+    match r_lead_transferee r3 with
+    | Some e => if negb (voters_contains (conf_of r3) e)
+                then r3 <| r_lead_transferee := None |> else r3
+    | None => r3
+    end.
+
+  Lemma post_conf_change_shape r r' cs :
+    post_conf_change r = Ok (r', cs) ->
+    cs = to_conf_state (conf_of r) /\
+    ((r' = r <| r_promotable := voters_contains (conf_of r) (r_id r) |> /\
+      (is_leader r = false \/ voters_contains (conf_of r) (r_id r) = false \/ cs_voters cs = []))
+     \/
+     (is_leader r = true /\ voters_contains (conf_of r) (r_id r) = true /\ cs_voters cs <> [] /\
+      exists r3, cf ty r r3 /\ r' = pcc_check r3)).
+  Proof.
+    intros H. unfold post_conf_change in H.
+    set (r0 := r <| r_promotable := voters_contains (conf_of r) (r_id r) |>) in *.
+    change (is_leader r0) with (is_leader r) in H.
+    destruct (voters_contains (conf_of r) (r_id r)) eqn:Ev; cbn [negb andb] in H.
+    2:{ destruct (is_leader r) eqn:El; cbn [negb orb] in H;
+        inversion H; subst; (split; [reflexivity|]); left; auto. }
+    destruct (is_leader r) eqn:El; cbn [negb orb] in H.
+    2:{ inversion H; subst; (split; [reflexivity|]); left; auto. }
+    destruct (cs_voters (to_conf_state (conf_of r))) as [|v0 vs] eqn:Ecs.
+    { inversion H; subst; (split; [reflexivity|]); left; auto. }
+    inv_bind H. destruct x as [r1 b]. inv_bind H. inv_bind H. inversion H; subst; clear H.
+    split; [reflexivity|]. right. rewrite Ecs. repeat split; try discriminate.
+    exists x0. split; [|reflexivity].
+    apply maybe_commit_cf in Hx.
+    assert (Hr0 : cf ty r r0) by (subst r0; cf_solve).
+    assert (H12 : cf ty r1 x).
+    { destruct b; [apply bcast_append_cf; exact Hx0|].
+      revert Hx0. apply for_each_peer_cf. intros ra id rb K.
+      destruct (get_pr ra id); [|discriminate]. inv_bind K. destruct x1 as [[rc pc] bc].
+      inversion K; subst. apply maybe_send_append_cf in Hx0. cf_solve. }
+    assert (H23 : cf ty x x0).
+    { clear - Hx1 HtyR. destruct (ro_last_pending_request_ctx (r_read_only x)) as [ctx|];
+        [|inversion Hx1; apply cf_refl].
+      destruct (ro_recv_ack (r_read_only x) (r_id x) ctx) as [ro' acks].
+      destruct acks as [a|]; [|inversion Hx1; subst; cf_solve].
+      match type of Hx1 with (if ?c then _ else _) = _ => destruct c end;
+        [|inversion Hx1; subst; cf_solve].
+      inv_bind Hx1. destruct x1 as [ro2 rss]. apply respond_reads_cf in Hx1. cf_solve. }
+    eapply cf_trans; [exact Hr0|]. eapply cf_trans; [exact Hx|].
+    eapply cf_trans; [exact H12|exact H23].
+  Qed.
+
+  Lemma pcc_check_wf r3 : wf r3 (pcc_check r3).
+  Proof.
+    unfold pcc_check. destruct (r_lead_transferee r3) as [e|] eqn:E; [|apply wf_refl].
+    destruct (negb (voters_contains (conf_of r3) e)); [|apply wf_refl]. wf_chain.
+  Qed.
+
+  Lemma post_conf_change_wf r r' cs : post_conf_change r = Ok (r', cs) -> wf r r'.
+  Proof.
+    intros H. apply post_conf_change_shape in H. destruct H as [_ [[-> _]|(_ & _ & _ & r3 & A & ->)]].
+    - wf_chain.
+    - eapply wf_trans; [apply cf_wf; exact A|apply pcc_check_wf].
+  Qed.
+
+  Lemma restore_wf r s r' b : restore r s = Ok (r', b) -> wf r r'.
+  Proof.
+    intros H. unfold restore in H.
+    destruct (s_index s <? committed (r_log r)); [inversion H; apply wf_refl|].
+    destruct (negb (role_eqb (r_state r) Follower)).
+    { inv_bind H. inversion H; subst. eapply become_follower_wf; eassumption. }
+    match type of H with (if ?c then _ else _) = _ => destruct c end; [inversion H; apply wf_refl|].
+    inv_bind H.
+    match type of H with (if ?c then _ else _) = _ => destruct c end.
+    { inv_bind H. inversion H; subst. wf_chain. }
+    inv_bind H.
+    match type of H with match ?d with _ => _ end = _ => destruct d as [[c' ids']|] end; [|discriminate].
+    inv_bind H. destruct x1 as [r1 new_cs].
+    match type of H with (if ?c then _ else _) = _ => destruct c end; [discriminate|].
+    match type of H with match ?d with _ => _ end = _ => destruct d end; [|discriminate].
+    destruct (next_idx p =? 0); [discriminate|]. inversion H; subst; clear H.
+    apply post_conf_change_wf in Hx1. wf_chain.
+  Qed.
+
+  Lemma handle_snapshot_wf r m r' : handle_snapshot r m = Ok r' -> wf r r'.
+  Proof.
+    intros H. unfold handle_snapshot in H. inv_bind H. destruct x as [r1 ok].
+    apply restore_wf in Hx.
+    destruct ok; apply (send_cf ty) in H; try exact HtyAR; wf_chain.
+  Qed.
+
+
+  Hypothesis HtyP : (MsgPropose =? ty) = false.
+  Hypothesis HtyTL : (MsgTransferLeader =? ty) = false.
+  Hypothesis HtyRI : (MsgReadIndex =? ty) = false.
+
+  Lemma step_candidate_wf r m r' c : step_candidate r m = Ok (r', c) -> wf r r'.
+  Proof.
+    intros H. unfold step_candidate in H.
+    destruct (m_type m =? MsgPropose); [inversion H; apply wf_refl|].
+    match type of H with (if ?c then _ else _) = _ => destruct c end.
+    { destruct (negb (r_term r =? m_term m)); [discriminate|].
+      inv_bind H. inv_bind H. inversion H; subst; clear H. wf_fwd.
+      destruct (m_type m =? MsgAppend); [apply handle_append_entries_cf in Hx0; wf_chain|].
+      destruct (m_type m =? MsgHeartbeat); [apply handle_heartbeat_cf in Hx0; wf_chain|].
+      apply handle_snapshot_wf in Hx0. wf_chain. }
+    match type of H with (if ?c then _ else _) = _ => destruct c end;
+      [|inversion H; apply wf_refl].
+    match type of H with (if ?c then _ else _) = _ => destruct c end;
+      [inversion H; apply wf_refl|].
+    inv_bind H. inv_bind H. inversion H; subst; clear H. destruct x as [r1 res].
+    apply poll_wf in Hx. apply maybe_commit_by_vote_wf in Hx0. cbn [fst] in Hx0. wf_chain.
+  Qed.
+
+  Lemma step_follower_wf r m r' c : step_follower r m = Ok (r', c) -> wf r r'.
+  Proof.
+    intros H. unfold step_follower in H.
+    destruct (m_type m =? MsgPropose) eqn:E1.
+    { apply N.eqb_eq in E1.
+      destruct (r_leader_id r =? INVALID_ID); [inversion H; apply wf_refl|].
+      destruct (r_disable_proposal_forwarding r); [inversion H; apply wf_refl|].
+      inv_bind H. inversion H; subst; clear H. apply (send_cf ty) in Hx; [wf_chain|].
+      change (m_type (m <| m_to := r_leader_id r |>)) with (m_type m). rewrite E1. exact HtyP. }
+    destruct (m_type m =? MsgAppend).
+    { inv_bind H. inversion H; subst; clear H. apply handle_append_entries_cf in Hx. wf_chain. }
+    destruct (m_type m =? MsgHeartbeat).
+    { inv_bind H. inversion H; subst; clear H. apply handle_heartbeat_cf in Hx. wf_chain. }
+    destruct (m_type m =? MsgSnapshot).
+    { inv_bind H. inversion H; subst; clear H. apply handle_snapshot_wf in Hx. wf_chain. }
+    destruct (m_type m =? MsgTransferLeader) eqn:E2.
+    { apply N.eqb_eq in E2.
+      destruct (r_leader_id r =? INVALID_ID); [inversion H; apply wf_refl|].
+      inv_bind H. inversion H; subst; clear H. apply (send_cf ty) in Hx; [wf_chain|].
+      change (m_type (m <| m_to := r_leader_id r |>)) with (m_type m). rewrite E2. exact HtyTL. }
+    destruct (m_type m =? MsgTimeoutNow).
+    { destruct (r_promotable r); [|inversion H; apply wf_refl].
+      inv_bind H. inversion H; subst; clear H. eapply hup_wf; [left; reflexivity|exact Hx]. }
+    destruct (m_type m =? MsgReadIndex) eqn:E3.
+    { apply N.eqb_eq in E3.
+      destruct (r_leader_id r =? INVALID_ID); [inversion H; apply wf_refl|].
+      inv_bind H. inversion H; subst; clear H. apply (send_cf ty) in Hx; [wf_chain|].
+      change (m_type (m <| m_to := r_leader_id r |>)) with (m_type m). rewrite E3. exact HtyRI. }
+    destruct (m_type m =? MsgReadIndexResp); [|inversion H; apply wf_refl].
+    destruct (m_entries m) as [|e [|e2 es]]; try (inversion H; apply wf_refl).
+    inv_bind H. inversion H; subst; clear H. wf_chain.
+  Qed.
+
+
+  (* ---------------------------------------------------------------- *)
+  (* handle_transfer_leader, case by case *)
+  Definition tl_start (r : raft) (from : N) : raft :=
+    r <| r_election_elapsed := 0 |> <| r_lead_transferee := Some from |>.
+
+  Lemma tl_start_after_abort r f :
+    (r <| r_lead_transferee := None |>) <| r_election_elapsed := 0 |> <| r_lead_transferee := Some f |>
+    = tl_start r f.
+  Proof. destruct r; reflexivity. Qed.
+
+  Definition tl_ignored (r : raft) (m : msg) : Prop :=
+    get_pr r (m_from m) = None \/ IdSet.mem (m_from m) (learners (conf_of r)) = true \/
+    r_lead_transferee r = Some (m_from m) \/ (m_from m = r_id r /\ r_lead_transferee r = None).
+
+  Definition tl_started (r : raft) (m : msg) (r' : raft) : Prop :=
+    m_from m <> r_id r /\ r_lead_transferee r <> Some (m_from m) /\
+    IdSet.mem (m_from m) (learners (conf_of r)) = false /\
+    exists pr, get_pr r (m_from m) = Some pr /\
+      ((matched pr = last_index (r_log r) /\
+        send_timeout_now (tl_start r (m_from m)) (m_from m) = Ok r') \/
+       (matched pr <> last_index (r_log r) /\
+        exists r1 pr1 b, maybe_send_append (tl_start r (m_from m)) (m_from m) pr true = Ok (r1, pr1, b) /\
+                         r' = put_pr r1 (m_from m) pr1)).
+
+  Lemma handle_transfer_leader_shape r m r' :
+    handle_transfer_leader r m = Ok r' ->
+    (r' = r /\ tl_ignored r m) \/
+    (m_from m = r_id r /\ (exists o, r_lead_transferee r = Some o /\ o <> r_id r) /\
+     r' = r <| r_lead_transferee := None |>) \/
+    tl_started r m r'.
+  Proof.
+    intros H. unfold handle_transfer_leader in H.
+    destruct (get_pr r (m_from m)) as [pr|] eqn:Epr;
+      [|inversion H; left; split; [reflexivity|left; reflexivity]].
+    destruct (IdSet.mem (m_from m) (learners (conf_of r))) eqn:El;
+      [inversion H; left; split; [reflexivity|right; left; reflexivity]|].
+    assert (Hstart : forall r0, r0 = r \/ r0 = r <| r_lead_transferee := None |> ->
+      r_lead_transferee r <> Some (m_from m) -> m_from m <> r_id r ->
+      match get_pr (r0 <| r_election_elapsed := 0 |> <| r_lead_transferee := Some (m_from m) |>) (m_from m) with
+      | Some pr =>
+          if matched pr =? last_index (r_log (r0 <| r_election_elapsed := 0 |> <| r_lead_transferee := Some (m_from m) |>))
+          then send_timeout_now (r0 <| r_election_elapsed := 0 |> <| r_lead_transferee := Some (m_from m) |>) (m_from m)
+          else y <- maybe_send_append (r0 <| r_election_elapsed := 0 |> <| r_lead_transferee := Some (m_from m) |>) (m_from m) pr true ;;
+               (let '(r', pr', _) := y in Ok (put_pr r' (m_from m) pr'))
+      | None => Panic site_pr_unwrap
+      end = Ok r' -> tl_started r m r').
+    { intros r0 Hr0 Hne Hself K.
+      assert (E0 : r0 <| r_election_elapsed := 0 |> <| r_lead_transferee := Some (m_from m) |>
+                   = tl_start r (m_from m)).
+      { destruct Hr0 as [->| ->]; [reflexivity|apply tl_start_after_abort]. }
+      rewrite E0 in K.
+      change (get_pr (tl_start r (m_from m)) (m_from m)) with (get_pr r (m_from m)) in K.
+      change (r_log (tl_start r (m_from m))) with (r_log r) in K.
+      rewrite Epr in K.
+      repeat split; try assumption. exists pr. split; [reflexivity|].
+      destruct (matched pr =? last_index (r_log r)) eqn:Em.
+      - left. apply N.eqb_eq in Em. split; assumption.
+      - right. apply N.eqb_neq in Em. split; [assumption|].
+        inv_bind K. destruct x as [[r1 pr1] b]. inversion K; subst. eauto. }
+    destruct (r_lead_transferee r) as [last|] eqn:Elt.
+    - destruct (last =? m_from m) eqn:Elast.
+      { apply N.eqb_eq in Elast. subst last. inversion H; left. split; [reflexivity|].
+        right; right; left; reflexivity. }
+      apply N.eqb_neq in Elast.
+      change (r_id (r <| r_lead_transferee := None |>)) with (r_id r) in H.
+      destruct (m_from m =? r_id r) eqn:Eself.
+      + apply N.eqb_eq in Eself. inversion H; subst. right; left.
+        split; [assumption|]. split; [|reflexivity]. exists last. split; [reflexivity|congruence].
+      + apply N.eqb_neq in Eself. right; right.
+        apply (Hstart (r <| r_lead_transferee := None |>)); auto. congruence.
+    - destruct (m_from m =? r_id r) eqn:Eself.
+      + apply N.eqb_eq in Eself. inversion H; subst. left. split; [reflexivity|].
+        right; right; right. auto.
+      + apply N.eqb_neq in Eself. right; right. apply (Hstart r); auto. congruence.
   Qed.
 
 End Helpers.
